@@ -615,6 +615,9 @@ func (a *FnAnalysis) Gates() []Gate {
 			if bo, ok := v.(*ssa.BinOp); ok && (a.isInduction(bo.X) || a.isInduction(bo.Y)) {
 				continue // loop counter test: not a check of the input
 			}
+			if bo, ok := v.(*ssa.BinOp); ok && (isSelectCase(bo.X) || isSelectCase(bo.Y)) {
+				continue // dispatch on which select case fired
+			}
 			if !isBool(v.Type()) {
 				c0 := &evalCtx{a: a, env: env{}, blk: b, guard: map[ssa.Value]bool{}}
 				if c0.evalNil(v) == tF {
@@ -778,6 +781,15 @@ func (a *FnAnalysis) isInduction(v ssa.Value) bool {
 	return false
 }
 
+// isSelectCase: the index of the select case that fired.
+func isSelectCase(v ssa.Value) bool {
+	if x, ok := v.(*ssa.Extract); ok && x.Index == 0 {
+		_, sel := x.Tuple.(*ssa.Select)
+		return sel
+	}
+	return false
+}
+
 func unionStr(a, b []string) []string {
 	m := map[string]bool{}
 	for _, s := range a {
@@ -860,6 +872,9 @@ func (a *FnAnalysis) Bounds() []string {
 		}
 		// loop induction tests (an operand IS the loop counter) are not bounds of the input
 		if a.isInduction(bo.X) || a.isInduction(bo.Y) {
+			continue
+		}
+		if isSelectCase(bo.X) || isSelectCase(bo.Y) {
 			continue
 		}
 		// the same test made at several places counts several times ("cond", "cond #2", …):
